@@ -2,8 +2,8 @@
 
 Metamorphic / differential, inside RDFLib only (no reference evaluator): a generated query is answered twice and the two answers must be
 the same multiset of solutions.
-  rewrites     q vs r(q): BGP triple patterns permuted, join / UNION operands swapped, variables renamed by a bijection, IRIs spelled with
-               PREFIX declarations or initNs, redundant braces / comments
+  rewrites     q vs r(q): BGP triple patterns permuted, join / UNION operands swapped, nested joins re-associated, variables renamed by a
+               bijection, IRIs spelled with PREFIX declarations or initNs, redundant braces / comments
   initbindings query(q, initBindings={v: t}) vs q joined with VALUES (?v) {(t)}, v bound by the outermost BGP
   prepared     one prepareQuery() object evaluated 2-4 times over 1-3 graphs with differing initBindings vs a fresh parse each time
   stores       the same triples in Memory, SimpleMemory, AuditableStore(Memory), a ReadOnlyGraphAggregate over a partition, a Dataset's
@@ -31,7 +31,7 @@ from pbt.oracle import sparqlref as ref
 from pbt.props import c04, c08, c11
 
 RULE = ("queries from the C04 pattern generator (depth <=2, data-derived BGPs, Graph and Dataset targets), the C08 modifier / aggregate generators and "
-        "the C11 path generator; rewrites drawn per case (permutation keys, swap flags, variable bijection, spelling mode); 1-3 graphs per prepared "
+        "the C11 path generator; rewrites drawn per case (permutation keys, swap / re-association flags, variable bijection, spelling mode); 1-3 graphs per prepared "
         "sequence; 5 store configurations. Non-trivial = the rewrite changed the text and the answer is non-empty / the sequence has >=2 evaluations "
         "differing in graph or bindings / the answer is non-empty and the stores really differ; distinct by SHA-1 of the case JSON.")
 ASSUMPTIONS = ["answers are compared as multisets of rows (sequences are not compared: tie order under ORDER BY is not determined)",
@@ -91,6 +91,19 @@ def swap(p, flags, pos=[0]):
         f = flags[(len(json.dumps(p))) % len(flags)]
         return [p[0], b, a] if f else [p[0], a, b]
     return [p[0]] + [swap(x, flags) if isinstance(x, list) and x and isinstance(x[0], str) and x[0] in c04.KINDS else x for x in p[1:]]
+
+
+def reassoc(p, flags):
+    """join is associative: { A } { { B } { C } } == { { A } { B } } { C } (every operand keeps its own braces, so FILTER / BIND scopes stay)"""
+    if p[0] == "join":
+        a, b = reassoc(p[1], flags), reassoc(p[2], flags)
+        f = flags[(len(json.dumps(p)) + 1) % len(flags)]
+        if f and b[0] == "join":
+            return ["join", ["join", a, b[1]], b[2]]
+        if f and a[0] == "join":
+            return ["join", a[1], ["join", a[2], b]]
+        return ["join", a, b]
+    return [p[0]] + [reassoc(x, flags) if isinstance(x, list) and x and isinstance(x[0], str) and x[0] in c04.KINDS else x for x in p[1:]]
 
 
 def rename_expr(e, m):
@@ -177,12 +190,18 @@ def run_rewrite(case):
         p2 = permute(p2, rw["keys"])
     if rw["swap"]:
         p2 = swap(p2, rw["flags"])
+    before_assoc = p2
+    if rw.get("assoc"):
+        p2 = reassoc(p2, rw["flags"])
     m = {}
     if rw["rename"]:
         names = gs.VARS
         m = {a: b for a, b in zip(names, rw["rename"])}
         p2 = rename(p2, m)
     if not c04.valid(p2):
+        return out
+    if c04_class(p2):
+        out.cls("c04-finding-class-skipped")
         return out
     inv = {b: a for a, b in m.items()}
     head2 = "*" if vars_ is None else " ".join("?" + m.get(v, v) for v in vars_)
@@ -200,6 +219,7 @@ def run_rewrite(case):
     finally:
         sparql_mod.SPARQL_DEFAULT_GRAPH_UNION = old
     changed = [n for n, on in (("permute", p2 != pat and rw["permute"]), ("swap", rw["swap"] and json.dumps(swap(pat, rw["flags"])) != json.dumps(pat)),
+                               ("assoc", rw.get("assoc") and json.dumps(rename(before_assoc, m) if m else before_assoc) != json.dumps(p2)),
                                ("rename", bool(m) and any(a != b for a, b in m.items())), ("spelling", rw["spelling"] != 0), ("braces", rw["braces"])) if on]
     where = f"{q1}\n vs\n{q2}\n data={case['data']} kind={case['kind']} flag={flag}"
     if is_err(r1) and is_err(r2):
@@ -236,7 +256,7 @@ def rewrite_cases(draw, tier):
     rw = {"permute": draw(st.booleans()), "keys": draw(st.lists(st.integers(0, 9), min_size=4, max_size=4)),
           "swap": draw(st.booleans()), "flags": draw(st.lists(st.booleans(), min_size=3, max_size=3)),
           "rename": draw(st.one_of(st.none(), st.permutations(gs.VARS), st.just(["v1", "x", "zz", "A", "_u"]))),
-          "spelling": draw(st.integers(0, 3)), "braces": draw(st.booleans())}
+          "spelling": draw(st.integers(0, 3)), "braces": draw(st.booleans()), "assoc": draw(st.booleans())}
     return {"kind": kind, "data": data, "pattern": pat, "vars": vars_, "rewrite": rw, "flag": True if kind != "dataset" else draw(st.booleans())}
 
 
